@@ -61,6 +61,14 @@ def cases(tier, seed):
                         am = [0, 0, delta // T.MEG, delta % T.MEG]
                     out.append({"stream": "transition", "fn": "add_fixed", "args": [name, U, am, ROUTES[k % 4]]})
                     k += 1
+    # add_duration re-clamps the day with helpers.is_leap(year) (either backend) even for fixed units:
+    # a start whose UTC date is Feb 29 exercises is_leap for EVERY leap year 1..9999
+    import calendar
+    for y in range(4, 10000, 4):
+        if calendar.isleap(y):
+            U = ((_dt.date(y, 2, 29).toordinal() - 1) * 86400 + 12 * 3600 + (y % 3600)) * T.MEG
+            spec = ["UTC", "Europe/Paris", "Asia/Tokyo", -18000][y // 4 % 4]
+            out.append({"stream": "feb29-every-leap-year", "fn": "add_fixed", "args": [spec, U, [1, 0, 0, 0] if y % 8 else [0, 0, 0, -1], ROUTES[(y // 4) % 2]]})
     fixed = [0, 3600, -12600, 20700, 86340, -86340]
     for _ in range(3000 if tier == "quick" else 40000):
         spec = zs[rnd.randrange(len(zs))] if rnd.random() < 0.8 else fixed[rnd.randrange(len(fixed))]
